@@ -205,6 +205,14 @@ func (p *c42MPort) state() string {
 	return "file-opened-by-" + p.op
 }
 
+// hangState is the coarser description used to classify non-terminating cases.
+func (p *c42MPort) hangState() string {
+	if p.kind == c42File && !p.readMode {
+		return "file-opened-for-output"
+	}
+	return p.state()
+}
+
 // Choice points: places where the documentation allows more than one outcome.
 const (
 	c42ChClosedDupRaises   = 1 << iota // duplicating a closed port: exception, or a closed duplicate
@@ -265,16 +273,23 @@ func c42ParseFd(s string) (int, bool) {
 func (w *c42World) redirect(ports map[int]*c42MPort, r c42Redir) *c42Exc {
 	before := c42Fork(ports)
 	exc := w.redirect1(ports, r)
-	// Did the redirection take a file or pipe port away from an fd while a
-	// duplicate of it is still in place (see dupOutlives)?
-	for dst, old := range before {
-		if old == ports[dst] || !(old.kind == c42File || (old.kind == c42Base && old.base >= 3)) {
-			continue
-		}
-		for fd, p := range ports {
-			if p == old && fd != dst && !w.dupOutlives {
+	if exc != nil || w.dupOutlives {
+		return exc
+	}
+	// Did the redirection take a file or pipe port away from its fd while a
+	// duplicate of it is in place on another fd (see dupOutlives)?
+	dst := 1
+	if r.dst != "" {
+		dst, _ = c42ParseFd(r.dst)
+	} else if r.op == "<" {
+		dst = 0
+	}
+	if old := before[dst]; old != nil && (old.kind == c42File || (old.kind == c42Base && old.base >= 3)) {
+		for fd, p := range before {
+			if p == old && fd != dst {
 				w.dupOutlives = true
 				w.ev("dup-outlives")
+				break
 			}
 		}
 	}
@@ -575,7 +590,7 @@ func c42RunModel(cmd c42Cmd, redirs []c42Redir, mask int) (c42Outcome, *c42World
 
 func (w *c42World) command(cmd c42Cmd, ports map[int]*c42MPort) *c42Exc {
 	if cmd.kind == c42Writer {
-		w.hangKey = "hang:writer:out=" + ports[1].state()
+		w.hangKey = "hang:writer:out=" + ports[1].hangState()
 		for _, a := range cmd.acts {
 			ps := ports
 			if len(a.redirs) > 0 {
@@ -603,9 +618,9 @@ func (w *c42World) command(cmd c42Cmd, ports map[int]*c42MPort) *c42Exc {
 	}
 	in, out := ports[0], ports[1]
 	if cmd.kind == c42Slurp {
-		w.hangKey = "hang:byte-reader:in=" + in.state()
+		w.hangKey = "hang:byte-reader:in=" + in.hangState()
 	} else {
-		w.hangKey = "hang:value-reader:in=" + in.state()
+		w.hangKey = "hang:value-reader:in=" + in.hangState()
 	}
 	data, values, exc := w.readInputs(in)
 	if exc != nil {
